@@ -48,6 +48,15 @@ for old, new in (
 a, b = sub("runtime/sema.go", "func internal_sync_nanotime() int64 {\n\treturn nanotime()\n",
            "func internal_sync_nanotime() int64 {\n\tif verifSimState != 0 {\n\t\treturn 1\n\t}\n\treturn nanotime()\n")
 repl[a] = b
+# map iteration order (and the hash seed of maps created during a run) and the choice among several ready
+# cases of a select statement are drawn from per-thread random state: in simulation they come from a seeded
+# stream of their own (reseeded per run, separate from the timer stream)
+a, b = sub("runtime/rand.go", "func maps_rand() uint64 {\n\treturn rand()\n",
+           "func maps_rand() uint64 {\n\tif verifSimState != 0 {\n\t\treturn verifOrderRand()\n\t}\n\treturn rand()\n")
+repl[a] = b
+a, b = sub("runtime/select.go", "\t\tj := cheaprandn(uint32(norder + 1))\n",
+           "\t\tj := cheaprandn(uint32(norder + 1))\n\t\tif verifSimState != 0 {\n\t\t\tj = uint32(verifOrderRand() % uint64(norder+1))\n\t\t}\n")
+repl[a] = b
 dst = os.path.join(out, "runtime_proc.go")
 open(dst, "w").write(src)
 repl[os.path.join(goroot, "src", "runtime/proc.go")] = dst
@@ -61,8 +70,19 @@ import _ "unsafe"
 // time-slice pre-empt running goroutines.
 var verifSimState uint64
 
+// verifOrderState: the stream behind map iteration order and select's choice among ready cases.
+var verifOrderState uint64
+
 //go:linkname verifSimSeed
-func verifSimSeed(s uint64) { verifSimState = s }
+func verifSimSeed(s uint64) { verifSimState = s; verifOrderState = s ^ 0x6a09e667f3bcc909 }
+
+func verifOrderRand() uint64 {
+	verifOrderState += 0x9e3779b97f4a7c15
+	z := verifOrderState
+	z = (z ^ (z >> 30)) * 0xbf58476d1ce4e5b9
+	z = (z ^ (z >> 27)) * 0x94d049bb133111eb
+	return z ^ (z >> 31)
+}
 
 func verifTimerRand() uint32 {
 	if verifSimState == 0 {
